@@ -493,7 +493,11 @@ func (obj *Package) Define(creator func(args List) Object, doc *FuncDoc, aux ...
 	obj.funcs[name] = &fi
 	for _, pkg := range obj.Users {
 		pkg.mu.Lock()
-		pkg.funcs[name] = &fi
+		// Replace the package's previous definition and fill a gap but leave
+		// the user's own or otherwise inherited function alone.
+		if xf := pkg.funcs[name]; xf == nil || xf.Pkg == obj {
+			pkg.funcs[name] = &fi
+		}
 		pkg.mu.Unlock()
 	}
 	obj.mu.Unlock()
